@@ -36,6 +36,15 @@ func serviceRandom(fl *drv.Flags, rng *rand.Rand, w *chain.TraceWriter) {
 	varDt := fl.CfgInt("vardt", 1) == 1
 	setPricing := func(ev chain.M, now int64) {
 		ev["price"] = int64(rng.Intn(9))
+		if rng.Intn(14) == 0 {
+			// a price in a denom that needs the oracle's exchange rate (none exists)
+			ev["pdenom"] = "btc"
+			if rng.Intn(2) == 0 {
+				ev["price"] = int64(0)
+			}
+		} else if rng.Intn(40) == 0 {
+			ev["pdenom"] = "nosupply"
+		}
 		if rng.Intn(5) == 0 {
 			ev["price"] = int64(4 * (1 + rng.Intn(3)))
 		}
